@@ -1,5 +1,44 @@
 """C15 — unknown properties are ignored."""
-from vlib import classlemmas, dispatch_check, runner
+from vlib import classlemmas, dispatch_check, runner, xh
+
+
+def wrapper_lemmas(chk, tier):
+    """only when a class function is a hand-written wrapper (none on the unchanged tree)"""
+    from vlib import wraprt
+
+    cs = wraprt.cases()
+    chk.ev.coverage["class_function_wrappers"] = len(cs)
+    if not cs:
+        return
+    ls = []
+    for name, c in cs.items():
+        if not c.cands:
+            continue
+        ls.append(xh.Lemma("wrap_%s" % name, [("k", "int"), ("maximal", "bool"), ("pos", "int")], ["return W.extra_ok(%r, k, maximal, pos)" % name], pre=["0 <= k < %d" % len(c.cands), "0 <= pos < 2"], meta={"site": "%s: undeclared alias-like key through the hand-written wrapper of its structure function" % name, "cls": name}, cost=len(c.cands)))
+    results, stats = xh.run(ls, ["from vlib import wraprt as W", "W.cases()"], timeout=300 if tier == "thorough" else 120, label="c15w")
+    chk.ev.add_counts(xh.summarize(results))
+    chk.ev.coverage["solver_seconds"] += stats["cpu_s"]
+    by_id = {l.id: l for l in ls}
+    shown = 0
+    for lid, r in results.items():
+        l = by_id[lid]
+        if r.verdict == "inconclusive":
+            chk.inconc("%s: %s" % (l.meta["site"], r.message[:120]))
+        elif r.verdict == "refuted":
+            c = cs[l.meta["cls"]]
+            cand = c.cands[r.args["k"]]
+            base = dict(c.tmax if r.args["maximal"] else c.tmin)
+            j = {cand: "alias-payload", **base} if r.args["pos"] == 0 else {**base, cand: "alias-payload"}
+            code = dispatch_check._extra_code(base, j, c.name)
+            from vlib import leafrt
+
+            ok, detail = leafrt.run_code(code)
+            if not ok:
+                shown += 1
+                if shown <= 12:
+                    chk.violation("%s: undeclared property %r changes the result (%s)" % (c.name, cand, detail), {"kind": "python", "code": code, "site": l.meta["site"]})
+            else:
+                chk.harness_error("counterexample for %s did not reproduce" % lid)
 
 
 def check(tier):
@@ -8,6 +47,7 @@ def check(tier):
     sat, cases = classlemmas.run_queries(chk, ["extra"])
     for c, k, m in sat:
         classlemmas.replay_sat(chk, c, k, m)
+    wrapper_lemmas(chk, tier)
     chk.ev.coverage["stubs"] = ["converter.structure(obj, attrs class) and _structure_func.dispatch(attrs class) return a Dispatched(cls, obj) token (the cut; recursive descent is replaced by the class lemma of the chosen class)", "format(symbolic, '') -> '<sym>'", "cattrs code generation under NoTracing", "handler lookup memoised outside tracing (lru_cache bypass)"]
     chk.ev.coverage["outside_bounds"] = ["values nested deeper than the bound below a union as seen by a hook (covered by the induction of DESIGN 3.5, not by a lemma)", "arrays longer than the bound at hook-inspected positions", "strings longer than the bound"]
     chk.ev.assumptions += ["cattrs generic machinery (_structure_list/_dict/_tuple/_optional, _unstructure_union, primitive coercion) behaves as documented (exercised concretely by the root round trips)", "CrossHair 0.0.110 and z3 5.1 are sound"]
